@@ -96,7 +96,7 @@ def run(tier):
                 'distinct non-trivial = distinct (class, scenario, fault, landing point)')
     scens = ['p0', 'p1', 'p3', 'p5'] if thorough else ['p0', 'p3']
     rep = 0 if thorough else 3
-    cap = None if thorough else 40
+    cap = None if thorough else 32
     # a) terminate at every EBP, iterator consumer
     cases, _ = lp.run_matrix(tier, lp.PERSISTENT, [], scens, 'c06t', extra_repeats=rep, per_class_cap=cap)
     for c in cases:
@@ -120,7 +120,7 @@ def run(tier):
     # c) SIGKILL at every line, both consumers
     for mux in (False, True):
         cases, _ = lp.run_matrix(tier, ['PersistentProcessWorker', 'PersistentRemoteWorker'], [], (['p3'] if not thorough else ['p1', 'p3']), 'c06k%d' % mux, events='line', inject_action='sigkill',
-                                 extra_repeats=rep, per_class_cap=(None if thorough else 30), spec_extra=({'mux': True} if mux else None))
+                                 extra_repeats=rep, per_class_cap=(None if thorough else 20), spec_extra=({'mux': True} if mux else None))
         for c in cases:
             dg = lp.digest(c)
             if dg['point'] is None:
